@@ -238,7 +238,7 @@ func checkC01(c *Ctx) {
 						}
 					}
 				}
-				if env.accPub[conn] == nil && (m.Kind == "v3") {
+				if len(env.accPub[conn]) == 0 && (m.Kind == "v3") {
 					// accessory ephemeral key of this connection not known yet: a finish cannot be built; send a start instead
 					m = pvMsg{Kind: "v1", Good: true, E: es[conn]}
 				}
@@ -246,11 +246,8 @@ func checkC01(c *Ctx) {
 				verifiedBefore := env.installed(addr) != "plain"
 				tok = fmt.Sprintf("req %d verify %s", conn, m.tok())
 				st, body, _, pm := w.f.Do(addr, "POST", "/pair-verify", "application/pairing+tlv8", env.concretise(conn, m))
-				if m.Kind == "v1" && m.Good && st == 200 {
-					items, _ := refTlvParse(body)
-					if k := tlvGet(items, tPubKey); len(k) == 32 {
-						env.accPub[conn] = k
-					}
+				if m.Kind == "v1" && m.Good {
+					env.learn(conn, st, body)
 				}
 				wasVerified := verifiedBefore
 				out = "verify " + env.observe(addr, st, body, pm)
